@@ -472,5 +472,6 @@ LEVEL_TEXT = ('Machine-checked theorems (Coq, closed under the global context) a
               'evaluated inside Coq; the property oracle is also evaluated directly on the real runs.')
 LEVEL_NOTE = ('Trusted: Coq kernel; hand-written model (validated each run against the code on exhaustive small state '
               'spaces and random runs); reference loop standing for the sequential driver; float halving exact below 2^53. '
-              'ifs/clang/gcda share BinaryState; their external tools are oracles.')
+              'ifs / clang / gcda share BinaryState; their external tools are stand-ins: IfPass (unifdef with nesting, #else, #elif) and '
+              'GCDABinaryPass (gcov-dump, records of different sizes) are checked by the oracle on monotone runs, without a Coq model of the tool.')
 TECHNIQUE = 'Rocq proof by induction on a lexicographic measure + model/implementation correspondence (vm_compute) + oracle search'
